@@ -1,1 +1,419 @@
-// harnesses for this module (included by the isomer_erbium_verif hook)
+// Kani harnesses for crates/erbium-core/src/radv/icmppkt.rs
+//   C05: no ICMPv6 byte string can crash the decoder (`parse` and the ND option decoders it calls).
+//   C17: serialiser-only obligations (the end-to-end ones that need the private builder are in radv_mod.rs).
+// Skeleton approach: CBMC cannot copy slices of symbolic length, and symbolic execution explores every decoder arm
+// whose guard is not decided by constant propagation.  Therefore the ICMP type, every option TYPE octet and every
+// option LENGTH octet are concrete per instance (enumerated over boundary values); all other octets are symbolic.
+#[cfg(kani)]
+mod k {
+    use super::super::*;
+
+    const RS: u8 = 133;
+    const RA: u8 = 134;
+    // option types: 1 source-lladdr, 3 prefix, 5 MTU, 25 RDNSS, 31 DNSSL (no decoder arm), 38 PREF64,
+    // 2/24/255 unknown to the decoder.  37 (captive portal) has its own harnesses below.
+    const TYPES: [u8; 9] = [1, 3, 5, 25, 31, 38, 2, 24, 255];
+
+    // Build an N-octet message: ICMP type `ty`, code 0, option headers pinned at their running offsets after a
+    // header of `hdr` octets: option i has type octet tys[i] and length octet lens[i].  Every length octet the
+    // decoder can read is pinned (checked by the concrete assertion at the end).
+    fn skel<const N: usize, const K: usize>(ty: u8, hdr: usize, tys: [u8; K], lens: [u8; K]) -> [u8; N] {
+        let mut d: [u8; N] = kani::any();
+        if N > 0 {
+            d[0] = ty;
+        }
+        if N > 1 {
+            d[1] = 0;
+        }
+        let mut off = hdr;
+        let mut i = 0;
+        let mut stopped = false;
+        while i < K {
+            if off < N {
+                d[off] = tys[i];
+            }
+            if off + 1 < N {
+                d[off + 1] = lens[i];
+            }
+            if lens[i] == 0 || off + lens[i] as usize * 8 > N {
+                stopped = true; // decoder must stop here with an error
+                break;
+            }
+            off += lens[i] as usize * 8;
+            i += 1;
+        }
+        // harness sanity (concrete): no unpinned option header can be read
+        assert!(stopped || off >= N, "skeleton leaves an unpinned option header");
+        d
+    }
+
+    // one option with length octet `l` in an N-octet message, for every type in TYPES; returns (#accepted, #rejected)
+    fn one_opt<const N: usize>(ty: u8, hdr: usize, l: u8, acc: &mut (u32, u32)) {
+        let mut t = 0;
+        while t < TYPES.len() {
+            let d = skel::<N, 1>(ty, hdr, [TYPES[t]], [l]);
+            let r = parse(&d);
+            let fits = l != 0 && hdr + 8 * l as usize <= N;
+            if !fits {
+                assert!(r.is_err(), "zero-length or overrunning option is rejected");
+            }
+            if let Ok(m) = &r {
+                match m {
+                    Icmp6::RtrSolicit(o) => assert!(ty == RS && o.0.len() <= 1, "at most the one option decoded"),
+                    Icmp6::RtrAdvert(a) => assert!(ty == RA && a.options.0.len() <= 1, "at most the one option decoded"),
+                    Icmp6::Unknown => assert!(false, "RS/RA never decode to Unknown with code 0"),
+                }
+            }
+            if r.is_ok() {
+                acc.0 += 1;
+            } else {
+                acc.1 += 1;
+            }
+            std::mem::forget(r);
+            t += 1;
+        }
+    }
+
+    /// VERIF: {"p":"C05","tier":"quick","fns":["radv::icmppkt::parse","radv::icmppkt::parse_nd_rtr_solicit","radv::icmppkt::parse_nd_rtr_options","pktparser::Buffer::{get_u8,get_be16,get_be32,get_bytes}"],"bounds":"router solicitation (type 133, code 0, checksum/reserved symbolic) + ONE option: option type in {1,3,5,25,31,38,2,24,255}, option length octet in {0,1,2,3,4,5}, message length = exact fit and one octet short; all payload octets symbolic","oracle":"Ok or Err, no panic/overflow/out-of-bounds; zero-length and overrunning options rejected","covers":2,"unwind":20}
+    #[kani::proof]
+    #[kani::unwind(20)]
+    fn c05_icmp_rs_one_option() {
+        let mut acc = (0u32, 0u32);
+        match kani::any::<u8>() {
+            0 => one_opt::<16>(RS, 8, 0, &mut acc),
+            1 => one_opt::<10>(RS, 8, 0, &mut acc),
+            2 => one_opt::<16>(RS, 8, 1, &mut acc),
+            3 => one_opt::<15>(RS, 8, 1, &mut acc),
+            4 => one_opt::<24>(RS, 8, 2, &mut acc),
+            5 => one_opt::<23>(RS, 8, 2, &mut acc),
+            6 => one_opt::<32>(RS, 8, 3, &mut acc),
+            7 => one_opt::<31>(RS, 8, 3, &mut acc),
+            8 => one_opt::<40>(RS, 8, 4, &mut acc),
+            9 => one_opt::<39>(RS, 8, 4, &mut acc),
+            10 => one_opt::<48>(RS, 8, 5, &mut acc),
+            _ => one_opt::<47>(RS, 8, 5, &mut acc),
+        }
+        kani::cover!(acc.0 > 0, "accepted");
+        kani::cover!(acc.1 > 0, "rejected");
+    }
+
+    /// VERIF: {"p":"C05","tier":"quick","fns":["radv::icmppkt::parse","radv::icmppkt::parse_nd_rtr_advert","radv::icmppkt::parse_nd_rtr_options","pktparser::Buffer::{get_u8,get_be16,get_be32,get_bytes}"],"bounds":"router advertisement (type 134, code 0, all 14 other header octets symbolic) + ONE option: option type in {1,3,5,25,31,38,2,24,255}, option length octet in {0,1,2,3,4,5}, message length = exact fit and one octet short; all payload octets symbolic","oracle":"Ok or Err, no panic/overflow/out-of-bounds; zero-length and overrunning options rejected","covers":2,"unwind":20}
+    #[kani::proof]
+    #[kani::unwind(20)]
+    fn c05_icmp_ra_one_option() {
+        let mut acc = (0u32, 0u32);
+        match kani::any::<u8>() {
+            0 => one_opt::<24>(RA, 16, 0, &mut acc),
+            1 => one_opt::<18>(RA, 16, 0, &mut acc),
+            2 => one_opt::<24>(RA, 16, 1, &mut acc),
+            3 => one_opt::<23>(RA, 16, 1, &mut acc),
+            4 => one_opt::<32>(RA, 16, 2, &mut acc),
+            5 => one_opt::<31>(RA, 16, 2, &mut acc),
+            6 => one_opt::<40>(RA, 16, 3, &mut acc),
+            7 => one_opt::<39>(RA, 16, 3, &mut acc),
+            8 => one_opt::<48>(RA, 16, 4, &mut acc),
+            9 => one_opt::<47>(RA, 16, 4, &mut acc),
+            10 => one_opt::<56>(RA, 16, 5, &mut acc),
+            _ => one_opt::<55>(RA, 16, 5, &mut acc),
+        }
+        kani::cover!(acc.0 > 0, "accepted");
+        kani::cover!(acc.1 > 0, "rejected");
+    }
+
+    // two consecutive options (t1,l1),(t2,l2)
+    fn two_opts<const N: usize>(ty: u8, hdr: usize, t1: u8, l1: u8, t2: u8, l2: u8, acc: &mut (u32, u32)) {
+        let d = skel::<N, 2>(ty, hdr, [t1, t2], [l1, l2]);
+        let r = parse(&d);
+        let fits = l1 != 0 && l2 != 0 && hdr + 8 * (l1 as usize + l2 as usize) <= N;
+        if !fits {
+            assert!(r.is_err(), "zero-length or overrunning option is rejected");
+        }
+        if r.is_ok() {
+            acc.0 += 1;
+        } else {
+            acc.1 += 1;
+        }
+        std::mem::forget(r);
+    }
+
+    /// VERIF: {"p":"C05","tier":"quick","fns":["radv::icmppkt::parse","radv::icmppkt::parse_nd_rtr_options"],"bounds":"router solicitation or advertisement + TWO consecutive options with (type,length octet) pairs drawn from well-formed and malformed combinations of types {1,3,5,25,38,2}: both fitting, second one octet short, second with length 0, second overrunning by 1..7 octets (trailing garbage after a valid option); payloads symbolic","oracle":"Ok or Err, no panic; option loop terminates; zero-length/overrunning second option rejected","covers":2,"unwind":20}
+    #[kani::proof]
+    #[kani::unwind(20)]
+    fn c05_icmp_two_options() {
+        let mut acc = (0u32, 0u32);
+        match kani::any::<u8>() {
+            0 => two_opts::<24>(RS, 8, 1, 1, 1, 1, &mut acc),
+            1 => two_opts::<23>(RS, 8, 1, 1, 5, 1, &mut acc),
+            2 => two_opts::<32>(RS, 8, 1, 1, 38, 2, &mut acc),
+            3 => two_opts::<32>(RS, 8, 38, 2, 5, 1, &mut acc),
+            4 => two_opts::<48>(RS, 8, 3, 4, 1, 1, &mut acc),
+            5 => two_opts::<47>(RS, 8, 1, 1, 3, 4, &mut acc),
+            6 => two_opts::<56>(RS, 8, 25, 3, 25, 3, &mut acc),
+            7 => two_opts::<24>(RS, 8, 1, 1, 1, 0, &mut acc),
+            8 => two_opts::<32>(RS, 8, 2, 2, 5, 0, &mut acc),
+            9 => two_opts::<23>(RS, 8, 1, 1, 2, 1, &mut acc),
+            10 => two_opts::<17>(RS, 8, 1, 1, 2, 1, &mut acc),
+            11 => two_opts::<18>(RS, 8, 5, 1, 25, 255, &mut acc),
+            12 => two_opts::<32>(RA, 16, 5, 1, 1, 1, &mut acc),
+            13 => two_opts::<56>(RA, 16, 5, 1, 3, 4, &mut acc),
+            14 => two_opts::<55>(RA, 16, 3, 4, 5, 1, &mut acc),
+            15 => two_opts::<48>(RA, 16, 25, 3, 5, 1, &mut acc),
+            16 => two_opts::<31>(RA, 16, 1, 1, 25, 1, &mut acc),
+            _ => two_opts::<32>(RA, 16, 1, 1, 3, 0, &mut acc),
+        }
+        kani::cover!(acc.0 > 0, "accepted");
+        kani::cover!(acc.1 > 0, "rejected");
+    }
+
+    // Option type octet fully symbolic (all 256 values); to keep the captive-portal arm's payload-dependent copy
+    // length concrete the payload is all zero here (known types get symbolic payloads in the harnesses above).
+    fn any_type_zero_payload<const N: usize>(ty: u8, hdr: usize, l: u8) -> bool {
+        let mut d = [0u8; N];
+        d[0] = ty;
+        d[2] = kani::any();
+        d[3] = kani::any();
+        d[hdr] = kani::any();
+        d[hdr + 1] = l;
+        let r = parse(&d);
+        let ok = r.is_ok();
+        std::mem::forget(r);
+        ok
+    }
+
+    /// VERIF: {"p":"C05","tier":"quick","fns":["radv::icmppkt::parse","radv::icmppkt::parse_nd_rtr_options"],"bounds":"RS/RA + one exactly fitting option whose TYPE octet is fully symbolic (all 256 values, i.e. every unknown type), length octet in {1,2,4}, payload all zero","oracle":"Ok or Err, never a panic","covers":2,"unwind":36}
+    #[kani::proof]
+    #[kani::unwind(36)]
+    fn c05_icmp_any_option_type() {
+        let ok = match kani::any::<u8>() {
+            0 => any_type_zero_payload::<16>(RS, 8, 1),
+            1 => any_type_zero_payload::<24>(RS, 8, 2),
+            2 => any_type_zero_payload::<40>(RS, 8, 4),
+            3 => any_type_zero_payload::<24>(RA, 16, 1),
+            _ => any_type_zero_payload::<32>(RA, 16, 2),
+        };
+        kani::cover!(ok, "accepted");
+        kani::cover!(!ok, "rejected (wrong size for a fixed-size option)");
+    }
+
+    // Messages too short to hold any option length octet: N <= hdr + 1.  ICMP type pinned, everything else symbolic.
+    fn hdr_only<const N: usize>(ty: u8, hdr: usize) -> bool {
+        let mut d: [u8; N] = kani::any();
+        if N > 0 {
+            d[0] = ty;
+        }
+        if N > 1 {
+            d[1] = 0;
+        }
+        let r = parse(&d);
+        if N < hdr || N == hdr + 1 {
+            assert!(r.is_err(), "truncated header / truncated option header rejected");
+        } else {
+            assert!(r.is_ok(), "bare header accepted");
+        }
+        let ok = r.is_ok();
+        std::mem::forget(r);
+        ok
+    }
+
+    /// VERIF: {"p":"C05","tier":"quick","fns":["radv::icmppkt::parse","radv::icmppkt::parse_nd_rtr_solicit","radv::icmppkt::parse_nd_rtr_advert","radv::icmppkt::parse_nd_rtr_options"],"bounds":"every truncation point of the RS header (0..=7 octets: any content incl. any type), bare RS (8), RS + 1 octet (9); every truncation point of the RA header (8,9,10,11,12,15), bare RA (16), RA + 1 octet (17); all octets except type/code symbolic","oracle":"truncated -> Err, bare header -> Ok, never a panic","covers":2,"unwind":20}
+    #[kani::proof]
+    #[kani::unwind(20)]
+    fn c05_icmp_header_truncations() {
+        let ok = match kani::any::<u8>() {
+            0 => hdr_only::<0>(kani::any(), 8),
+            1 => hdr_only::<1>(kani::any(), 8),
+            2 => hdr_only::<2>(kani::any(), 8),
+            3 => hdr_only::<3>(kani::any(), 8),
+            4 => hdr_only::<4>(kani::any(), 8),
+            5 => hdr_only::<7>(kani::any(), 8),
+            6 => hdr_only::<8>(RS, 8),
+            7 => hdr_only::<9>(RS, 8),
+            8 => hdr_only::<8>(RA, 16),
+            9 => hdr_only::<9>(RA, 16),
+            10 => hdr_only::<10>(RA, 16),
+            11 => hdr_only::<11>(RA, 16),
+            12 => hdr_only::<12>(RA, 16),
+            13 => hdr_only::<15>(RA, 16),
+            14 => hdr_only::<16>(RA, 16),
+            _ => hdr_only::<17>(RA, 16),
+        };
+        kani::cover!(ok, "accepted");
+        kani::cover!(!ok, "rejected");
+    }
+
+    // Other ICMPv6 messages: type pinned, code pinned or symbolic, rest symbolic - nothing after octet 3 is read.
+    fn other<const N: usize>(ty: u8, code: u8) {
+        let mut d: [u8; N] = kani::any();
+        d[0] = ty;
+        d[1] = code;
+        let r = parse(&d);
+        assert!(matches!(r, Ok(Icmp6::Unknown)), "other ICMPv6 messages are ignored, not errors");
+        std::mem::forget(r);
+    }
+
+    /// VERIF: {"p":"C05","tier":"quick","fns":["radv::icmppkt::parse"],"bounds":"messages of 8, 24 and 64 octets with ICMP type in {0,1,2,128,129,132,135,136,137,138,255} and symbolic code, and RS/RA (133/134) with code 1 and 255; all other octets symbolic","oracle":"returns Ok(Unknown); never panics","covers":1,"unwind":20}
+    #[kani::proof]
+    #[kani::unwind(20)]
+    fn c05_icmp_other_types() {
+        const T: [u8; 11] = [0, 1, 2, 128, 129, 132, 135, 136, 137, 138, 255];
+        let mut i = 0;
+        while i < T.len() {
+            other::<8>(T[i], kani::any());
+            other::<24>(T[i], kani::any());
+            other::<64>(T[i], kani::any());
+            i += 1;
+        }
+        other::<8>(RS, 1);
+        other::<24>(RS, 255);
+        other::<24>(RA, 1);
+        other::<64>(RA, 255);
+        kani::cover!(true, "reached");
+    }
+
+    // Captive-portal option (type 37): the decoder strips trailing NULs and copies the rest, so the copy length
+    // depends on the payload.  P = number of octets kept (concrete per instance): octets >= P are 0, octet P-1 is a
+    // pinned non-zero value `last`, octets < P are symbolic (any value: NUL, ASCII, invalid UTF-8).
+    fn portal<const N: usize>(ty: u8, hdr: usize, l: u8, p: usize, last: u8) -> bool {
+        let mut d = skel::<N, 1>(ty, hdr, [37], [l]);
+        let start = hdr + 2;
+        let end = hdr + 8 * l as usize;
+        let mut i = start;
+        while i < end && i < N {
+            if i - start >= p {
+                d[i] = 0;
+            } else if i - start == p - 1 {
+                d[i] = last;
+            }
+            i += 1;
+        }
+        let r = parse(&d);
+        match &r {
+            Ok(Icmp6::RtrSolicit(o)) => match &o.0[0] {
+                NDOptionValue::CaptivePortal(s) => assert!(s.len() == p, "URL = payload without trailing NUL padding"),
+                _ => assert!(false, "type 37 decodes to CaptivePortal"),
+            },
+            Ok(Icmp6::RtrAdvert(a)) => match &a.options.0[0] {
+                NDOptionValue::CaptivePortal(s) => assert!(s.len() == p, "URL = payload without trailing NUL padding"),
+                _ => assert!(false, "type 37 decodes to CaptivePortal"),
+            },
+            Ok(Icmp6::Unknown) => assert!(false, "not unknown"),
+            Err(_) => {}
+        }
+        let ok = r.is_ok();
+        std::mem::forget(r);
+        ok
+    }
+
+    // last kept octet: '/' (ASCII), 0xff (never valid UTF-8), 0xc3 (truncated 2-octet sequence), 0x80 (stray
+    // continuation), 0xe2 (truncated 3-octet sequence)
+    const LAST: [u8; 5] = [b'/', 0xff, 0xc3, 0x80, 0xe2];
+
+    /// VERIF: {"p":"C05","tier":"quick","fns":["radv::icmppkt::parse","radv::icmppkt::parse_nd_rtr_options (CAPTIVE_PORTAL arm)","alloc::string::String::from_utf8"],"bounds":"RS or RA + one captive-portal option (type 37) with length octet 1 (6 payload octets): kept-length P in {0,1,2,5,6} (octets from P on are NUL padding, octet P-1 pinned to each of '/',0xff,0xc3,0x80,0xe2), the P-1 octets before it symbolic (any bytes, valid or invalid UTF-8)","oracle":"Ok with a URL of exactly P octets, or Err(InvalidEncoding); never a panic or out-of-bounds slice","covers":2,"unwind":20}
+    #[kani::proof]
+    #[kani::unwind(20)]
+    fn c05_icmp_captive_portal_len1() {
+        let sel: u8 = kani::any();
+        let mut ok = false;
+        let mut j = 0;
+        while j < LAST.len() {
+            let last = LAST[j];
+            if sel as usize / 8 == j {
+                ok = match sel % 8 {
+                    0 => portal::<16>(RS, 8, 1, 0, last),
+                    1 => portal::<16>(RS, 8, 1, 1, last),
+                    2 => portal::<16>(RS, 8, 1, 2, last),
+                    3 => portal::<16>(RS, 8, 1, 5, last),
+                    4 => portal::<16>(RS, 8, 1, 6, last),
+                    5 => portal::<24>(RA, 16, 1, 0, last),
+                    _ => portal::<24>(RA, 16, 1, 6, last),
+                };
+            }
+            j += 1;
+        }
+        kani::assume(sel < 40);
+        kani::cover!(ok, "url decoded");
+        kani::cover!(!ok, "rejected (invalid UTF-8)");
+    }
+
+    /// VERIF: {"p":"C05","tier":"quick","fns":["radv::icmppkt::parse","radv::icmppkt::parse_nd_rtr_options (CAPTIVE_PORTAL arm)","alloc::string::String::from_utf8"],"bounds":"RS + one captive-portal option with length octet 2 (14 payload octets), kept-length P in {0,7,13,14}, last kept octet pinned to each of '/',0xff,0xc3,0x80,0xe2, the octets before it symbolic; plus the option one octet short and with length octet 3 overrunning the message","oracle":"Ok with a URL of exactly P octets, or Err; never a panic","covers":2,"unwind":36}
+    #[kani::proof]
+    #[kani::unwind(36)]
+    fn c05_icmp_captive_portal_len2() {
+        let sel: u8 = kani::any();
+        let mut ok = false;
+        let mut j = 0;
+        while j < LAST.len() {
+            let last = LAST[j];
+            if sel as usize / 8 == j {
+                ok = match sel % 8 {
+                    0 => portal::<24>(RS, 8, 2, 0, last),
+                    1 => portal::<24>(RS, 8, 2, 7, last),
+                    2 => portal::<24>(RS, 8, 2, 13, last),
+                    3 => portal::<24>(RS, 8, 2, 14, last),
+                    4 => portal::<23>(RS, 8, 2, 14, last),
+                    _ => portal::<24>(RS, 8, 3, 14, last),
+                };
+            }
+            j += 1;
+        }
+        kani::assume(sel < 40);
+        kani::cover!(ok, "url decoded");
+        kani::cover!(!ok, "rejected (invalid UTF-8 or truncated)");
+    }
+
+    // Largest option length octet (255 -> 2040 octets) - exact fit, so the option is really decoded.
+    fn big<const N: usize>(hdr_ty: u8, hdr: usize, oty: u8) -> bool {
+        let d = skel::<N, 1>(hdr_ty, hdr, [oty], [255]);
+        let r = parse(&d);
+        if hdr + 2040 > N {
+            assert!(r.is_err(), "overrunning option rejected");
+        }
+        if let Ok(Icmp6::RtrSolicit(o)) = &r {
+            match &o.0[0] {
+                NDOptionValue::SourceLLAddr(v) => assert!(v.len() == 2038, "whole payload kept"),
+                NDOptionValue::RecursiveDnsServers((_, s)) => assert!(s.len() == 127, "(2040-8)/16 servers"),
+                _ => {}
+            }
+        }
+        let ok = r.is_ok();
+        std::mem::forget(r);
+        ok
+    }
+
+    /// VERIF: {"p":"C05","tier":"quick","fns":["radv::icmppkt::parse","radv::icmppkt::parse_nd_rtr_options"],"bounds":"RS + one option with the maximum length octet 255 (2040 octets): type in {1 source-lladdr, 3 prefix, 5 MTU, 38 PREF64, 200 unknown} in an exactly fitting 2048-octet message, and types {1,25,37} in a message one octet short (2047); payload symbolic","oracle":"Ok or Err, no panic; wrong-size prefix/MTU/PREF64 options are errors not crashes","covers":2,"unwind":20}
+    #[kani::proof]
+    #[kani::unwind(20)]
+    fn c05_icmp_option_len255() {
+        let ok = match kani::any::<u8>() {
+            0 => big::<2048>(RS, 8, 1),
+            1 => big::<2048>(RS, 8, 3),
+            2 => big::<2048>(RS, 8, 5),
+            3 => big::<2048>(RS, 8, 38),
+            4 => big::<2048>(RS, 8, 200),
+            5 => big::<2047>(RS, 8, 1),
+            6 => big::<2047>(RS, 8, 25),
+            _ => big::<2047>(RS, 8, 37),
+        };
+        kani::cover!(ok, "accepted");
+        kani::cover!(!ok, "rejected");
+    }
+
+    /// VERIF: {"p":"C05","tier":"thorough","fns":["radv::icmppkt::parse","radv::icmppkt::parse_nd_rtr_options (RDNSS arm)"],"bounds":"RS + one RDNSS option (type 25) with the maximum length octet 255 = 127 server addresses, exact fit (2048 octets), payload symbolic","oracle":"Ok with 127 servers; no panic","covers":1,"unwind":132}
+    #[kani::proof]
+    #[kani::unwind(132)]
+    fn c05_icmp_rdnss_len255() {
+        let d = skel::<2048, 1>(RS, 8, [25], [255]);
+        let r = parse(&d);
+        match &r {
+            Ok(Icmp6::RtrSolicit(o)) => match &o.0[0] {
+                NDOptionValue::RecursiveDnsServers((_, s)) => {
+                    assert!(s.len() == 127, "(2040-8)/16 servers");
+                    kani::cover!(true, "decoded");
+                }
+                _ => assert!(false, "RDNSS"),
+            },
+            _ => assert!(false, "well-formed RDNSS accepted"),
+        }
+        std::mem::forget(r);
+    }
+}
